@@ -528,6 +528,12 @@ impl Model {
             _ => {
                 if !registered {
                     se.cur = P03;
+                    if p.is_empty() && !matches!(verb.as_str(), "LUSERS" | "LIST" | "NAMES" | "MOTD" | "ADMIN" | "AWAY" | "DIE" | "VERSION" | "TIME" | "INFO" | "HELP" | "LINKS" | "REHASH" | "RESTART") {
+                        // a malformed gated command: whether the syntax error or the gate is reported first is not specified
+                        self.push_e(se, Exp::AnyOf { c, options: vec!["451".into(), format!("461 {}", verb)] });
+                        se.labels.push(format!("{}/451_or_461", verb));
+                        return;
+                    }
                     self.push(se, c, "451".into());
                     se.labels.push(format!("{}/451", verb));
                     return;
